@@ -1321,21 +1321,111 @@ theorem netpolConns_perm {e e' : Engine} (hp : e.netpols.Perm e'.netpols) (hv : 
   rw [netpolConns_eq, netpolConns_eq]
   have hpol : (e.policiesSelecting (selfPeer src dst isIngress) (dirOf isIngress)).Perm
       (e'.policiesSelecting (selfPeer src dst isIngress) (dirOf isIngress)) := by
-    unfold policiesSelecting
     cases selfPeer src dst isIngress with
     | ip r => exact List.Perm.refl _
-    | pod p ns => exact hp.filter _
+    | pod p ns =>
+      rw [policiesSelecting_pod, policiesSelecting_pod]
+      exact (sortByName_perm _).trans ((hp.filter _).trans (sortByName_perm _).symm)
   rw [hpol.isEmpty_eq]
   split
   · rfl
   · rw [npFold_perm src dst isIngress hpol]
     intro np hnp
-    have hm : np ∈ e.netpols := by
-      unfold policiesSelecting at hnp
-      cases hs : selfPeer src dst isIngress with
-      | ip r => rw [hs] at hnp; cases hnp
-      | pod p ns => rw [hs] at hnp; exact (List.mem_filter.mp hnp).1
+    have hm : np ∈ e.netpols := policiesSelecting_sub hnp
     exact npStep_struct (hv np hm) src dst hd isIngress
+
+/-! ### the policies are visited in the order of their names
+
+`getPoliciesSelectingPod` sorts the selecting policies by name, so on two engines that hold the same
+policies (unique keys) the *same list* is visited: the NetworkPolicy layer — of `list` and of
+`eval` alike — is the same computation, whatever the rules are (no validity is needed). -/
+
+theorem insertByName_sorted (p : NetPol) {l : List NetPol}
+    (h : l.Pairwise (fun a b => a.name ≤ b.name)) :
+    (insertByName p l).Pairwise (fun a b => a.name ≤ b.name) := by
+  induction l with
+  | nil => simp [insertByName]
+  | cons q qs ih =>
+    rw [List.pairwise_cons] at h
+    unfold insertByName
+    split
+    · rename_i hle
+      rw [List.pairwise_cons]
+      refine ⟨?_, List.pairwise_cons.mpr h⟩
+      intro x hx
+      rcases List.mem_cons.mp hx with rfl | hx'
+      · exact hle
+      · exact String.le_trans hle (h.1 x hx')
+    · rename_i hle
+      have hqp : q.name ≤ p.name := by
+        rcases String.le_total p.name q.name with h1 | h1
+        · exact absurd h1 hle
+        · exact h1
+      rw [List.pairwise_cons]
+      refine ⟨?_, ih h.2⟩
+      intro x hx
+      rcases List.mem_cons.mp ((insertByName_perm p qs).mem_iff.mp hx) with rfl | hx'
+      · exact hqp
+      · exact h.1 x hx'
+
+theorem sortByName_sorted (l : List NetPol) :
+    (sortByName l).Pairwise (fun a b => a.name ≤ b.name) := by
+  induction l with
+  | nil => exact List.Pairwise.nil
+  | cons p l ih => exact insertByName_sorted p ih
+
+theorem selects_ns {np : NetPol} {p : Pod} {d : Dir} (h : np.selects p d = true) : p.ns = np.ns := by
+  unfold NetPol.selects at h
+  split at h
+  · cases h
+  · rename_i hne
+    simpa using hne
+
+/-- two engines that hold the same policies (unique keys) visit the same list of policies -/
+theorem policiesSelecting_perm_eq {e e' : Engine} (hp : e.netpols.Perm e'.netpols)
+    (hn : (e.netpols.map (fun q => (q.ns, q.name))).Nodup) (k : KPeer) (d : Dir) :
+    e.policiesSelecting k d = e'.policiesSelecting k d := by
+  cases k with
+  | ip r => rfl
+  | pod p ns =>
+    rw [policiesSelecting_pod, policiesSelecting_pod]
+    refine List.Perm.eq_of_pairwise (le := fun a b => a.name ≤ b.name) ?_ (sortByName_sorted _)
+      (sortByName_sorted _)
+      ((sortByName_perm _).trans ((hp.filter _).trans (sortByName_perm _).symm))
+    intro a b ha hb h1 h2
+    have ha' := List.mem_filter.mp (mem_sortByName.mp ha)
+    have hb' := List.mem_filter.mp (mem_sortByName.mp hb)
+    have hb'' : b ∈ e.netpols := hp.mem_iff.mpr hb'.1
+    -- same namespace (that of the pod), same name: the same key, hence the same policy
+    have hkey : (a.ns, a.name) = (b.ns, b.name) := by
+      rw [← selects_ns ha'.2, ← selects_ns hb'.2, String.le_antisymm h1 h2]
+    clear h1 h2 ha hb
+    have : ∀ l : List NetPol, (l.map (fun q => (q.ns, q.name))).Nodup → a ∈ l → b ∈ l → a = b := by
+      intro l hl hal hbl
+      induction l with
+      | nil => cases hal
+      | cons z zs ih =>
+        rw [List.map_cons, List.nodup_cons] at hl
+        rcases List.mem_cons.mp hal with rfl | ha2 <;> rcases List.mem_cons.mp hbl with rfl | hb2
+        · rfl
+        · exact absurd (List.mem_map.mpr ⟨b, hb2, hkey.symm⟩) hl.1
+        · exact absurd (List.mem_map.mpr ⟨a, ha2, hkey⟩) hl.1
+        · exact ih hl.2 ha2 hb2
+    exact this _ hn ha'.1 hb''
+
+/-- the NetworkPolicy layer on two engines that hold the same policies: the same computation -/
+theorem netpolConns_perm_eq {e e' : Engine} (hp : e.netpols.Perm e'.netpols)
+    (hn : (e.netpols.map (fun q => (q.ns, q.name))).Nodup) (src dst : KPeer) (isIngress : Bool) :
+    e.netpolConns src dst isIngress = e'.netpolConns src dst isIngress := by
+  rw [netpolConns_eq, netpolConns_eq, policiesSelecting_perm_eq hp hn]
+
+/-- the policy map of the engine `build` returns has unique keys -/
+theorem build_netpols_nodup {objs : List Obj} {e : Engine} (h : Engine.build objs = .ok e) :
+    (e.netpols.map (fun q => (q.ns, q.name))).Nodup := by
+  obtain ⟨e1, hf, _, he⟩ := build_ok_parts h
+  have := (fold_keys_nodup hf ⟨by simp, by simp⟩).1
+  rw [he, resolve_eq]
+  exact this
 
 /-! ## E. `peerConns` on equivalent engines and similar peers -/
 
@@ -1358,6 +1448,19 @@ theorem peerConns_equiv {e e' : Engine} (h : e.Equiv e') (hv : NPValid e.netpols
     (src dst : KPeer) (hd : dst.DstOK) : e.peerConns src dst = e'.peerConns src dst := by
   unfold peerConns
   rw [xgressConns_equiv h hv src dst hd false, xgressConns_equiv h hv src dst hd true]
+
+/-- one pair on two equivalent engines whose policy maps have unique keys: the same computation,
+whatever the rules and the destination (no validity is needed: the policies are visited in the
+order of their names) -/
+theorem peerConns_equiv' {e e' : Engine} (h : e.Equiv e')
+    (hn : (e.netpols.map (fun q => (q.ns, q.name))).Nodup) (src dst : KPeer) :
+    e.peerConns src dst = e'.peerConns src dst := by
+  have hx : ∀ i, e.xgressConns src dst i = e'.xgressConns src dst i := by
+    intro i
+    unfold xgressConns
+    rw [anpConns_equiv h.anps, defaultConns_equiv h.banp, netpolConns_perm_eq h.netpols hn]
+  unfold peerConns
+  rw [hx false, hx true]
 
 theorem netpolConns_err_class {e : Engine} (hv : NPValid e.netpols) (src dst : KPeer)
     (hd : dst.DstOK) (i : Bool) {err : Err} (h : e.netpolConns src dst i = .error err) :
@@ -1391,11 +1494,7 @@ theorem netpolConns_err_class {e : Engine} (hv : NPValid e.netpols) (src dst : K
             obtain ⟨np', h1, h2⟩ := ih _ hf
             exact ⟨np', List.mem_cons_of_mem _ h1, h2⟩
       obtain ⟨np, hnp, herr⟩ := this
-      have hm : np ∈ e.netpols := by
-        unfold policiesSelecting at hnp
-        cases hs : selfPeer src dst i with
-        | ip r => rw [hs] at hnp; cases hnp
-        | pod p ns => rw [hs] at hnp; exact (List.mem_filter.mp hnp).1
+      have hm : np ∈ e.netpols := policiesSelecting_sub hnp
       exact (npStep_struct (hv np hm) src dst hd i).2 err herr
 
 /-- on valid objects the only failure of one direction is the named port towards an IP block -/
@@ -2106,6 +2205,40 @@ theorem connsBetweenPeers_equiv {e e' : Engine} (h : e.Equiv e') (hv : NPValid e
   intro d hd
   exact pairEntry_equiv h hv focus s d (hok d hd)
 
+/-- one pair of the loop on two equivalent engines with unique policy keys: no validity needed -/
+theorem pairEntry_equiv' {e e' : Engine} (h : e.Equiv e')
+    (hn : (e.netpols.map (fun q => (q.ns, q.name))).Nodup) (focus : String) (s d : LPeer) :
+    pairEntry e focus s d = pairEntry e' focus s d := by
+  unfold pairEntry
+  rw [← toKPeer_equiv h s, ← toKPeer_equiv h d]
+  split
+  · rfl
+  split
+  · rfl
+  split
+  · rfl
+  cases e.toKPeer s with
+  | error err => rfl
+  | ok ks =>
+    simp only
+    cases e.toKPeer d with
+    | error err => rfl
+    | ok kd =>
+      simp only
+      rw [peerConns_equiv' h hn ks kd]
+
+/-- **the loop on two equivalent engines with unique policy keys**: the same entries in the same
+order, or the same error — whatever the rules and the pods -/
+theorem connsBetweenPeers_equiv' {e e' : Engine} (h : e.Equiv e')
+    (hn : (e.netpols.map (fun q => (q.ns, q.name))).Nodup) (focus : String) (peers : List LPeer) :
+    e.connsBetweenPeers peers focus = e'.connsBetweenPeers peers focus := by
+  rw [connsBetweenPeers_eq, connsBetweenPeers_eq]
+  apply collect_congr
+  intro s _
+  apply collect_congr
+  intro d _
+  exact pairEntry_equiv' h hn focus s d
+
 /-- the peers of the list `build` returns stand on real pods with legal ports -/
 theorem peers_dstOK {objs : List Obj} {e : Engine} (hk : DistinctKeys objs) (hr : PodsReal objs)
     (hpp : PodPortsValid objs) (hb : Engine.build objs = .ok e) {peers : List LPeer}
@@ -2135,6 +2268,20 @@ theorem list_relation_perm {objs objs' : List Obj} (hp : objs.Perm objs') (hk : 
   cases hb2
   refine ⟨peersList_equiv heq, podOwnersMap_perm heq.pods heq.podsNodup, fun peers hpl => ?_⟩
   exact connsBetweenPeers_equiv heq (build_npValid hb hv) focus peers (peers_dstOK hk hr hpp hb hpl)
+
+/-- **the computed relation is order-independent, from distinct keys alone**: the NetworkPolicies
+that select a pod are visited in the order of their names and the pods in the order of their keys,
+so the two runs are the same computation — no validity of rules, ports or pods is needed -/
+theorem list_relation_perm' {objs objs' : List Obj} (hp : objs.Perm objs') (hk : DistinctKeys objs)
+    {e e' : Engine} (hb : Engine.build objs = .ok e) (hb' : Engine.build objs' = .ok e')
+    (focus : String) :
+    e.peersList = e'.peersList ∧ e.podOwnersMap = e'.podOwnersMap ∧
+    ∀ peers, e.connsBetweenPeers peers focus = e'.connsBetweenPeers peers focus := by
+  obtain ⟨e2, hb2, heq⟩ := build_perm hp hk hb
+  rw [hb'] at hb2
+  cases hb2
+  exact ⟨peersList_equiv heq, podOwnersMap_perm heq.pods heq.podsNodup,
+    fun peers => connsBetweenPeers_equiv' heq (build_netpols_nodup hb) focus peers⟩
 
 /-! ### the report -/
 
@@ -2243,6 +2390,32 @@ theorem runList_perm_noIngress {objs objs' : List Obj} (hp : objs.Perm objs')
     | ok owners =>
       simp only
       rw [← h3 peers hpl, allowedIngress_none htg, allowedIngress_none htg',
+        ingressEntries_none htg, ingressEntries_none htg']
+
+/-- **the `list` report is order-independent, from distinct keys alone** (inputs without Ingress /
+Route targets): on an input `build` accepts, whose pods and namespaces have distinct keys, every
+reordering of the objects yields the same report or the same error — whatever the policies say -/
+theorem runList_perm_noIngress' {objs objs' : List Obj} (hp : objs.Perm objs')
+    (hk : DistinctKeys objs) (hok : ∃ e, Engine.build objs = .ok e)
+    (htg : IngressA.targets objs = []) (focus : String) :
+    runList objs focus = runList objs' focus := by
+  obtain ⟨e, hb⟩ := hok
+  obtain ⟨e', hb', heq⟩ := build_perm hp hk hb
+  have htg' : IngressA.targets objs' = [] := List.perm_nil.mp ((targets_perm hp).symm.trans (by rw [htg]))
+  obtain ⟨h1, h2, h3⟩ := list_relation_perm' hp hk hb hb' focus
+  unfold runList
+  simp only [hb, hb']
+  rw [← heq.pods.isEmpty_eq, ← h1, ← h2]
+  split
+  · rfl
+  cases hpl : e.peersList with
+  | error err => rfl
+  | ok peers =>
+    cases ho : e.podOwnersMap with
+    | error err => rfl
+    | ok owners =>
+      simp only
+      rw [← h3 peers, allowedIngress_none htg, allowedIngress_none htg',
         ingressEntries_none htg, ingressEntries_none htg']
 
 end Netpol.PermLayer
